@@ -454,6 +454,35 @@ func c22BashArtifact(cs c22Case) bool {
 	return false
 }
 
+// c22BashAtAfterDelim: an unquoted $@ / $* directly after an unquoted expansion whose value ends in
+// IFS white space followed by one non-white-space IFS character (`IFS=': '; x=' :'; set -- b c; $x$@`).
+// bash drops the empty field that this delimiter makes at the start of a field (it gives <b><c>) although
+// it keeps it for `$x$1` (<><b>) and for x=':' (<><b><c>); dash and POSIX give <><b><c> in all three, as
+// the implementation does.  A bash inconsistency, kept out of the oracle comparison.
+func c22BashAtAfterDelim(cs c22Case) bool {
+	ifsv := cs.ifsv()
+	isW := func(r rune) bool { return (r == ' ' || r == '\t' || r == '\n') && strings.ContainsRune(ifsv, r) }
+	isD := func(r rune) bool { return strings.ContainsRune(ifsv, r) && !isW(r) }
+	for i, p := range cs.parts {
+		if (p.kind != 'A' && p.kind != 'T') || i == 0 {
+			continue
+		}
+		q := cs.parts[i-1]
+		if q.kind != 'E' && q.kind != 'C' {
+			continue
+		}
+		rs := []rune(c22Eff(q.kind, q.val))
+		n := len(rs)
+		for n > 0 && isW(rs[n-1]) {
+			n--
+		}
+		if n >= 2 && isD(rs[n-1]) && isW(rs[n-2]) {
+			return true
+		}
+	}
+	return false
+}
+
 // assignment context: `v=WORD` then print.  witness `asg …`.
 func c22AsgScript(cs c22Case) string {
 	src, vars := c22Word(cs.parts, true)
@@ -850,7 +879,7 @@ func c22(c *Ctx) {
 			if asg {
 				ok = ok && !c22HasLitBackslash(cs)
 			} else {
-				ok = ok && !ex
+				ok = ok && !ex && !c22BashAtAfterDelim(cs)
 			}
 			// the script carries every value in single quotes: NUL cannot be written
 			if ok || try > 30 {
